@@ -54,4 +54,61 @@ mod verif_witness {
             crate::request::body::BodySizeLimit::Disabled => panic!("the default must not disable the limit"),
         }
     }
+    // ---- the public extractor, fed by a real hyper::body::Incoming (in-memory HTTP/1.1 exchange over tokio::io::duplex) ----
+    type Outcome = Result<BufferedBody, ExtractBufferedBodyError>;
+    async fn extract_over_hyper(frames: Vec<Vec<u8>>, content_length: Option<String>, limit: crate::request::body::BodySizeLimit) -> Outcome {
+        use hyper_util::rt::TokioIo;
+        use std::convert::Infallible;
+        let (client_io, server_io) = tokio::io::duplex(1 << 16);
+        let (tx, mut rx) = tokio::sync::mpsc::unbounded_channel::<Outcome>();
+        let server = async move {
+            let service = hyper::service::service_fn(move |req: http::Request<hyper::body::Incoming>| {
+                let tx = tx.clone();
+                async move {
+                    let (parts, body) = req.into_parts();
+                    let head = RequestHead { method: parts.method, target: parts.uri, version: parts.version, headers: parts.headers };
+                    let _ = tx.send(BufferedBody::extract(&head, body.into(), limit).await);
+                    Ok::<_, Infallible>(http::Response::new(http_body_util::Full::new(Bytes::new())))
+                }
+            });
+            let _ = hyper::server::conn::http1::Builder::new().serve_connection(TokioIo::new(server_io), service).await;
+        };
+        let client = async move {
+            let (mut sender, conn) = hyper::client::conn::http1::handshake(TokioIo::new(client_io)).await.unwrap();
+            let frames = frames.into_iter().map(|f| Ok::<_, Infallible>(hyper::body::Frame::data(Bytes::from(f))));
+            let body = http_body_util::StreamBody::new(futures_util::stream::iter(frames));
+            let mut req = http::Request::builder().method("POST").uri("/").header("host", "localhost");
+            if let Some(cl) = content_length { req = req.header("content-length", cl); }
+            let req = req.body(body).unwrap();
+            tokio::join!(async move { let _ = sender.send_request(req).await; }, async move { let _ = conn.await; });
+        };
+        tokio::join!(server, client);
+        rx.recv().await.expect("the server never ran the extractor")
+    }
+    /// extract.enabled_enforces_the_limit / extract.disabled_returns_the_whole_body on the public entry point:
+    /// every limit in {0, 1, 10}, body lengths around it, several splits into frames, truthful or absent Content-Length.
+    #[tokio::test]
+    async fn the_public_extractor_enforces_every_limit_on_a_real_incoming_body() {
+        use crate::request::body::BodySizeLimit;
+        for limit in [0u64, 1, 10] {
+            for n in [0usize, 1, 2, 9, 10, 11, 30] {
+                let data: Vec<u8> = (0..n).map(|i| b'a' + (i % 26) as u8).collect();
+                for chunk in [1usize, 4, 64] {
+                    for with_cl in [false, true] {
+                        let frames: Vec<Vec<u8>> = data.chunks(chunk).map(|c| c.to_vec()).collect();
+                        let cl = with_cl.then(|| n.to_string());
+                        let case = format!("limit={limit} body={n} bytes in frames of {chunk}, content-length={cl:?}");
+                        match extract_over_hyper(frames, cl, BodySizeLimit::Enabled { max_size: limit.bytes() }).await {
+                            Ok(b) => { assert!(n as u64 <= limit, "{case}: {} bytes were handed to the application", b.bytes.len()); assert_eq!(&b.bytes[..], &data[..], "{case}: not byte-identical"); }
+                            Err(ExtractBufferedBodyError::SizeLimitExceeded(_)) => assert!(n as u64 > limit, "{case}: size error for a body within the limit"),
+                            Err(e) => panic!("{case}: unexpected error {e:?}"),
+                        }
+                    }
+                }
+            }
+        }
+        let data = vec![9u8; 5000];
+        let b = extract_over_hyper(data.chunks(700).map(|c| c.to_vec()).collect(), None, BodySizeLimit::Disabled).await.expect("no limit: no size error");
+        assert_eq!(&b.bytes[..], &data[..]);
+    }
 }
